@@ -15,6 +15,11 @@ type PlacedComment struct {
 	SameLine bool
 }
 
+// LineCommentSafeCtx: inline placeholders at which a `#`/`//` comment is handled correctly by the formatter
+// (the `else` keyword is printed on a new line); line comments are drawn there even when they are avoided
+// at the other inline placeholders.
+var LineCommentSafeCtx = map[string]bool{"if:before-else": true, "if:before-else-if": true, "if:before-elseif": true, "if:before-elsif": true}
+
 // Rendered is the result of laying out a token stream.
 type Rendered struct {
 	Src      string
@@ -149,7 +154,7 @@ func (g *G) Layout(toks []Tok) *Rendered {
 						sameLine = false
 					}
 					w.write(pre)
-					allowLine := !(g.cfg.NoInlineLineComments && !between)
+					allowLine := !(g.cfg.NoInlineLineComments && !between) || LineCommentSafeCtx[tok.Ctx]
 					c := g.commentText(serial, allowLine)
 					out.Comments = append(out.Comments, PlacedComment{Text: c, Slot: tok.Slot, Ctx: tok.Ctx, Line: w.line, SameLine: sameLine})
 					w.write(c)
